@@ -4,6 +4,7 @@ import inspect
 import itertools
 import sys
 import textwrap
+import threading
 import typing
 from collections import OrderedDict, defaultdict
 from dataclasses import dataclass, field, replace
@@ -109,7 +110,7 @@ class LazySignature(inspect.Signature):
 
 def bootstrap_dispatch(ov, name):
     def first_entry(*args, **kwargs):
-        ov.compile()
+        ov.ensure_compiled()
         return ov.dispatch(*args, **kwargs)
 
     dispatch = FunctionType(
@@ -377,6 +378,7 @@ class Ovld:
         self.__name__ = name
         self._defns = {}
         self._locked = False
+        self._lock = threading.RLock()
         self.mixins = []
         self.argument_analysis = ArgumentAnalyzer()
         self.add_mixins(*mixins)
@@ -488,7 +490,10 @@ class Ovld:
 
     def ensure_compiled(self):
         if not self._compiled:
-            self.compile()
+            # Several threads may make the first call at the same time
+            with self._lock:
+                if not self._compiled:
+                    self.compile()
 
     def compile(self):
         """Finalize this overload.
@@ -506,36 +511,43 @@ class Ovld:
             self.name = self.__name__ = f"ovld{self.id}"
 
         name = self.__name__
-        try:
-            self.map = MultiTypeMap(name=name, key_error=self._key_error)
+        with self._lock:
+            try:
+                self.map = MultiTypeMap(name=name, key_error=self._key_error)
 
-            self.analyze_arguments()
-            dispatch = generate_dispatch(self, self.argument_analysis)
-            if not hasattr(self, "dispatch"):
-                self.dispatch = bootstrap_dispatch(self, name=self.shortname)
-            self.dispatch.__code__ = rename_code(
-                dispatch.__code__, self.shortname
-            )
-            self.dispatch.__kwdefaults__ = dispatch.__kwdefaults__
-            self.dispatch.__annotations__ = dispatch.__annotations__
-            self.dispatch.__defaults__ = dispatch.__defaults__
-            self.dispatch.__globals__.update(dispatch.__globals__)
-            self.dispatch.map = self.map
-            self.dispatch.__doc__ = self.mkdoc()
+                self.analyze_arguments()
+                dispatch = generate_dispatch(self, self.argument_analysis)
+                if not hasattr(self, "dispatch"):
+                    self.dispatch = bootstrap_dispatch(
+                        self, name=self.shortname
+                    )
 
-            for key, fn in list(self.defns.items()):
-                self.register_signature(key, fn)
-        except BaseException:
-            # Never leave a partially filled table in service: go back to
-            # the state where the next call builds everything again
-            self._compiled = False
-            if hasattr(self, "dispatch"):
-                self.dispatch.__code__ = self.dispatch._bootstrap_code
-                self.dispatch.__defaults__ = None
-                self.dispatch.__kwdefaults__ = None
-            raise
+                for key, fn in list(self.defns.items()):
+                    self.register_signature(key, fn)
 
-        self._compiled = True
+                # The generated entry point is installed last: until then
+                # calls go through the bootstrap entry point, which waits
+                # for the build to be complete
+                self.dispatch.__globals__.update(dispatch.__globals__)
+                self.dispatch.__kwdefaults__ = dispatch.__kwdefaults__
+                self.dispatch.__annotations__ = dispatch.__annotations__
+                self.dispatch.__defaults__ = dispatch.__defaults__
+                self.dispatch.map = self.map
+                self.dispatch.__doc__ = self.mkdoc()
+                self.dispatch.__code__ = rename_code(
+                    dispatch.__code__, self.shortname
+                )
+            except BaseException:
+                # Never leave a partially filled table in service: go back
+                # to the state where the next call builds everything again
+                self._compiled = False
+                if hasattr(self, "dispatch"):
+                    self.dispatch.__code__ = self.dispatch._bootstrap_code
+                    self.dispatch.__defaults__ = None
+                    self.dispatch.__kwdefaults__ = None
+                raise
+
+            self._compiled = True
 
     def resolve(self, *args):
         """Find the correct method to call for the given arguments."""
@@ -633,8 +645,7 @@ class Ovld:
             return ov
 
     def __get__(self, obj, cls):
-        if not self._compiled:
-            self.compile()
+        self.ensure_compiled()
         return self.dispatch.__get__(obj, cls)
 
     @_setattrs(rename="dispatch")
@@ -643,8 +654,7 @@ class Ovld:
 
         This should be replaced by an auto-generated function.
         """
-        if not self._compiled:
-            self.compile()
+        self.ensure_compiled()
         return self.dispatch(*args, **kwargs)
 
     @_setattrs(rename="next")
